@@ -319,3 +319,170 @@ def generated_iter(seed, tag="search"):
 def base_inputs(seed, n_gen):
     """curated first, then repo tests, then generated"""
     return curated() + harvest() + generated(seed, n_gen)
+
+
+# ---------------------------------------------------------------------------------------------
+# neighbourhood mutants of shaped programs: one or two small syntactic twists of a corpus / test program
+# (the passes fire on particular shapes; realistic regressions live on "the shape plus a twist")
+# ---------------------------------------------------------------------------------------------
+def ast_mutants(text, rng, n=4):
+    """up to n distinct parseable variants of `text`, each with 1-2 local changes"""
+    import clingo
+    from clingo.ast import (ASTType, AggregateFunction, BinaryOperation, BinaryOperator, ComparisonOperator,
+                            Function, Interval, Sign, SymbolicTerm, Transformer, UnaryOperation, UnaryOperator,
+                            Variable)
+    prg = try_parse(text)
+    if prg is None:
+        return []
+
+    class Sites(Transformer):
+        """counts the mutation sites in visiting order; with `which` set, applies the mutation at those sites"""
+
+        def __init__(self, which=None, rng=None, vars_=None):
+            self.i = 0
+            self.which = which or {}
+            self.rng = rng
+            self.vars = vars_ or []
+
+        def hit(self):
+            k = self.i
+            self.i += 1
+            return self.which.get(k)
+
+        def visit_Literal(self, lit):
+            r = self.hit()
+            lit = lit.update(**self.visit_children(lit))
+            if r is not None:
+                order = [Sign.NoSign, Sign.Negation, Sign.DoubleNegation]
+                return lit.update(sign=order[(order.index(lit.sign) + 1 + r % 2) % 3])
+            return lit
+
+        def visit_Variable(self, var):
+            r = self.hit()
+            if r is None:
+                return var
+            loc = var.location
+            k = r % 7
+            if k == 0 and self.vars:
+                return Variable(loc, self.vars[r // 7 % len(self.vars)])
+            if k == 1:
+                return Function(loc, "f", [var], False)
+            if k == 2:
+                return BinaryOperation(loc, BinaryOperator.Plus, var, SymbolicTerm(loc, clingo.Number(1)))
+            if k == 3:
+                return BinaryOperation(loc, BinaryOperator.Division, var, SymbolicTerm(loc, clingo.Number(2)))
+            if k == 4:
+                return Function(loc, "g", [BinaryOperation(loc, BinaryOperator.Modulo, var,
+                                                           SymbolicTerm(loc, clingo.Number(2))), var], False)
+            if k == 5:
+                return UnaryOperation(loc, UnaryOperator.Absolute, var)
+            return Variable(loc, "_")
+
+        def visit_SymbolicTerm(self, t):
+            r = self.hit()
+            if r is None:
+                return t
+            loc = t.location
+            k = r % 4
+            if k == 0:
+                return Interval(loc, SymbolicTerm(loc, clingo.Number(1)), SymbolicTerm(loc, clingo.Number(2)))
+            if k == 1:
+                return BinaryOperation(loc, BinaryOperator.Plus,
+                                       Interval(loc, SymbolicTerm(loc, clingo.Number(0)), SymbolicTerm(loc, clingo.Number(1))),
+                                       SymbolicTerm(loc, clingo.Number(1)))
+            if k == 2 and self.vars:
+                return Variable(loc, self.vars[r // 4 % len(self.vars)])
+            return SymbolicTerm(loc, clingo.Number([-1, 0, 2, 7][r // 4 % 4]))
+
+        def visit_Guard(self, g):
+            r = self.hit()
+            g = g.update(**self.visit_children(g))
+            if r is not None:
+                ops = [ComparisonOperator.Equal, ComparisonOperator.NotEqual, ComparisonOperator.LessThan,
+                       ComparisonOperator.LessEqual, ComparisonOperator.GreaterThan, ComparisonOperator.GreaterEqual]
+                return g.update(comparison=ops[r % 6])
+            return g
+
+        def visit_BodyAggregate(self, a):
+            r = self.hit()
+            a = a.update(**self.visit_children(a))
+            if r is not None:
+                fs = [AggregateFunction.Sum, AggregateFunction.SumPlus, AggregateFunction.Count, AggregateFunction.Min,
+                      AggregateFunction.Max]
+                k = r % 7
+                if k < 5:
+                    return a.update(function=fs[k])
+                if k == 5 and a.left_guard is not None:
+                    return a.update(left_guard=a.right_guard, right_guard=a.left_guard) if a.right_guard is not None \
+                        else a
+                if a.elements:
+                    return a.update(elements=list(a.elements) + [a.elements[0]])
+            return a
+
+        def visit_SymbolicAtom(self, sa):
+            r = self.hit()
+            sa = sa.update(**self.visit_children(sa))
+            if r is not None and sa.symbol.ast_type == ASTType.Function:
+                f = sa.symbol
+                args = list(f.arguments)
+                k = r % 3
+                if k == 0 and self.vars:
+                    args.append(Variable(f.location, self.vars[r // 3 % len(self.vars)]))
+                elif k == 1 and args:
+                    args.pop(r // 3 % len(args))
+                elif args:
+                    args.append(args[0])
+                return sa.update(symbol=f.update(arguments=args))
+            return sa
+
+    out, seen = [], {text}
+    for _ in range(n * 4):
+        idx = [i for i, s in enumerate(prg) if s.ast_type in (ASTType.Rule, ASTType.Minimize, ASTType.ShowTerm)]
+        if not idx:
+            break
+        si = rng.choice(idx)
+        st = prg[si]
+        c = Sites()
+        c.visit(st)
+        if c.i == 0:
+            continue
+        vs = sorted({str(v) for v in _collect_vars(st)} - {"_"})
+        which = {rng.randrange(c.i): rng.randrange(1 << 16) for _ in range(rng.choice([1, 1, 1, 2]))}
+        try:
+            new = Sites(which, rng, vs).visit(st)
+            txt = "\n".join(str(new) if i == si else str(s) for i, s in enumerate(prg))
+        except Exception:  # pylint: disable=broad-except
+            continue
+        if txt in seen or try_parse(txt) is None:
+            continue
+        seen.add(txt)
+        out.append(txt)
+        if len(out) >= n:
+            break
+    return out
+
+
+def _collect_vars(st):
+    from clingo.ast import ASTType, Transformer
+    res = []
+
+    class V(Transformer):
+        def visit_Variable(self, v):
+            res.append(v.name)
+            return v
+    V().visit(st)
+    return res
+
+
+def neighbourhood(base, seed, n, tag="twist"):
+    """n mutants spread over the given base inputs (deterministic in seed)"""
+    rng = random.Random(seed)
+    base = [b for b in base if len(b["text"]) < 3000]
+    out = []
+    tries = 0
+    while base and len(out) < n and tries < n * 5:
+        tries += 1
+        b = rng.choice(base)
+        for m in ast_mutants(b["text"], rng, 1):
+            out.append({"origin": f"{tag}:{seed}:{b['origin']}", "text": m})
+    return out
